@@ -61,6 +61,10 @@ class InfoCompiler(BaseOutlineCompiler):
         return EMPTY_BOUNDING_BOX
 
     def _set_attrs(self, tag, attrs):
+        if tag not in self.otf:
+            # the temporary font has no such table (e.g. vertical metrics given
+            # for a font without vhea, or no gasp records left): nothing to merge
+            return
         temp = self.otf[tag]
         orig = self.orig_otf[tag]
         for attr in attrs:
